@@ -65,9 +65,17 @@ var contractSMTFns = map[string]smtFn{
 	"rv_len":      {[]string{"RV"}, "Int", types.Typ[types.Int]},
 	"rv_index":    {[]string{"RV", "Int"}, "RV", nil},
 	"rv_mapindex": {[]string{"RV", "RV"}, "RV", nil},
+	"rv_key":      {[]string{"RV", "Int"}, "RV", nil},
+	"rv_iskey":    {[]string{"RV", "RV"}, "Bool", types.Typ[types.Bool]},
 	"birth":       {[]string{"Ref"}, "Int", types.Typ[types.Int]},
 	"strlen":      {[]string{"Str"}, "Int", types.Typ[types.Int]},
 	"strcat":      {[]string{"Str", "Str"}, "Str", types.Typ[types.String]},
+	"re_match":    {[]string{"Ref", "Str"}, "Bool", types.Typ[types.Bool]},
+	"parseint_ok": {[]string{"Str"}, "Bool", types.Typ[types.Bool]},
+	"parseint_val": {[]string{"Str"}, "Int", types.Typ[types.Int64]},
+	"parsefloat_ok": {[]string{"Str"}, "Bool", types.Typ[types.Bool]},
+	"parsefloat_val": {[]string{"Str"}, F64, types.Typ[types.Float64]},
+	"str_tolower": {[]string{"Str"}, "Str", types.Typ[types.String]},
 }
 
 var kindNames = map[string]int{"Invalid": 0, "Bool": 1, "Int": 2, "Int8": 3, "Int16": 4, "Int32": 5, "Int64": 6, "Uint": 7, "Uint8": 8, "Uint16": 9,
@@ -234,8 +242,11 @@ func (fr *Frame) eval(e *Expr, env *Env, st *State, old *State) *Val {
 		if isIface(ty) {
 			return term(x.T, ty)
 		}
-		_, ub := w.boxFn(w.sortOf(ty))
-		return term(fmt.Sprintf("(%s (val %s))", ub, x.T), ty)
+		bx, ub := w.boxFn(w.sortOf(ty))
+		if !strings.Contains(x.T, "|q:") {
+			u.fact(implies(eq(fmt.Sprintf("(ityp %s)", x.T), w.tag(ty)), eq(fmt.Sprintf("(%s (%s (ival %s)))", bx, ub, x.T), fmt.Sprintf("(ival %s)", x.T))))
+		}
+		return term(fmt.Sprintf("(%s (ival %s))", ub, x.T), ty)
 	case "call":
 		return fr.evalCall(e, env, st, old)
 	}
@@ -294,10 +305,10 @@ func (fr *Frame) unify(a, b *Val) (*Val, *Val) {
 	// untyped int against float
 	if a.Ty != nil && b.Ty != nil {
 		if isFloat(a.Ty) && isInteger(b.Ty) {
-			return a, term(fmt.Sprintf("((_ to_fp 11 53) RNE (to_real %s))", b.T), a.Ty)
+			return a, term(u.intToFloat(b.T, nil, a.Ty.Underlying().(*types.Basic)), a.Ty)
 		}
 		if isFloat(b.Ty) && isInteger(a.Ty) {
-			return term(fmt.Sprintf("((_ to_fp 11 53) RNE (to_real %s))", a.T), b.Ty), b
+			return term(u.intToFloat(a.T, nil, b.Ty.Underlying().(*types.Basic)), b.Ty), b
 		}
 	}
 	sa, sb := u.srt(a), u.srt(b)
@@ -351,7 +362,7 @@ func (fr *Frame) evalBin(e *Expr, env *Env, st *State, old *State) *Val {
 		if a.Ty != nil && isFloat(a.Ty) {
 			t = fmt.Sprintf("(fp.eq %s %s)", a.T, b.T)
 		} else if u.srt(a) == "Iface" && b.T == "nilIface" {
-			t = fmt.Sprintf("(= (typ %s) T_nil)", a.T)
+			t = fmt.Sprintf("(= (ityp %s) T_nil)", a.T)
 		} else {
 			if u.srt(a) != u.srt(b) {
 				evalFail("sort mismatch in %q: %s vs %s", e.src, u.srt(a), u.srt(b))
@@ -457,13 +468,13 @@ func (fr *Frame) evalCall(e *Expr, env *Env, st *State, old *State) *Val {
 			}
 			evalFail("typeOf needs an interface value")
 		}
-		return sv(fmt.Sprintf("(typ %s)", x.T), "TypeTag")
+		return sv(fmt.Sprintf("(ityp %s)", x.T), "TypeTag")
 	case "kindOf":
 		x := arg(0)
 		if u.srt(x) != "Iface" {
 			evalFail("kindOf needs an interface value")
 		}
-		return term(fmt.Sprintf("(kind (typ %s))", x.T), types.Typ[types.Int])
+		return term(fmt.Sprintf("(kind (ityp %s))", x.T), types.Typ[types.Int])
 	case "type":
 		ty, _ := u.eng.resolveType(env.pkg, e.typ)
 		if ty == nil {
@@ -479,6 +490,12 @@ func (fr *Frame) evalCall(e *Expr, env *Env, st *State, old *State) *Val {
 	case "fresh":
 		x := arg(0)
 		return term(fmt.Sprintf("(>= (birth %s) %s)", fr.refOf(x), u.entryNow), B)
+	case "same":
+		a, b := fr.unify(arg(0), arg(1))
+		if u.srt(a) != u.srt(b) {
+			evalFail("same: sort mismatch %s vs %s", u.srt(a), u.srt(b))
+		}
+		return term(eq(a.T, b.T), B)
 	case "refof":
 		return sv(fr.refOf(arg(0)), "Ref")
 	case "any":
@@ -497,7 +514,7 @@ func (fr *Frame) evalCall(e *Expr, env *Env, st *State, old *State) *Val {
 		if ity == nil || !isIface(ity) {
 			evalFail("implements: %s is not an interface", e.args[1].name)
 		}
-		return term(and(fmt.Sprintf("(distinct (typ %s) T_nil)", x.T), fmt.Sprintf("(%s (typ %s))", u.implementsFn(ity), x.T)), B)
+		return term(and(fmt.Sprintf("(distinct (ityp %s) T_nil)", x.T), fmt.Sprintf("(%s (ityp %s))", u.implementsFn(ity), x.T)), B)
 	case "inv":
 		// number of invocations of a function value
 		x := arg(0)
@@ -533,7 +550,7 @@ func (fr *Frame) evalCall(e *Expr, env *Env, st *State, old *State) *Val {
 			if x.Ty != nil {
 				if bb, ok := x.Ty.(*types.Basic); ok && bb.Kind() == types.UntypedInt {
 					if isFloat(ty) {
-						return term(fmt.Sprintf("((_ to_fp 11 53) RNE (to_real %s))", x.T), ty)
+						return term(u.intToFloat(x.T, nil, ty.Underlying().(*types.Basic)), ty)
 					}
 					return term(x.T, ty)
 				}
@@ -640,7 +657,7 @@ func (fr *Frame) refOf(x *Val) string {
 		return fmt.Sprintf("(sdata %s)", x.T)
 	case "Iface":
 		_, ub := u.w.boxFn("Ref")
-		return fmt.Sprintf("(%s (val %s))", ub, x.T)
+		return fmt.Sprintf("(%s (ival %s))", ub, x.T)
 	}
 	evalFail("no reference in a value of sort %s", u.srt(x))
 	return ""
